@@ -1,0 +1,35 @@
+//go:build verif
+
+package listener
+
+import (
+	"net"
+	"time"
+
+	"github.com/kelindar/rate"
+)
+
+// VerifNewConn is the Conn literal of newConn without the 1 s flush goroutine.
+func VerifNewConn(c net.Conn, writeRate int) *Conn {
+	if writeRate <= 0 || writeRate > 1000 {
+		writeRate = 60
+	}
+	return &Conn{
+		socket: c,
+		reader: sniffer{source: c},
+		limit:  rate.New(writeRate, time.Second),
+		cancel: func() {},
+	}
+}
+
+// VerifNewListener is New without net.Listen: the real Match/Serve/serve loop runs over root.
+func VerifNewListener(root net.Listener, config Config) *Listener {
+	return &Listener{
+		root:         root,
+		bufferSize:   1024,
+		errorHandler: func(_ error) bool { return true },
+		closing:      make(chan struct{}),
+		readTimeout:  noTimeout,
+		config:       config,
+	}
+}
